@@ -115,11 +115,8 @@ class C01(C03):
         return ' '.join(tags)
 
     def known_class(self, case, impl, code):
-        # descriptor written directly after a ring digit whose ring bond carries a bond symbol:
-        # strip_bonding_descriptors takes the ring bond's symbol for the descriptor's order (C13 finding)
-        frs = case['s'].split('.', 1)[1]
-        if code in (101, 2) and re.search(r'[=#](%\d+|\d)\[[$<>!]', frs):
-            return 'descriptor_after_symbol_ring'
+        # no known finding is open for C01 (descriptor_after_symbol_ring was repaired by /repo commit
+        # f3554b8; its witnesses stay in the corpus, a fixed entry suppresses nothing)
         return None
 
     def coq_case(self, case, impl):
